@@ -48,12 +48,13 @@ Punct == {"(", ")", "{", "}", "[", "]", "|", "&", "^", "!", "-", ":", ";", ".", 
 OpClasses == {"cmp", "add", "mul", "sh"}       \* == != < > <= >=   +   * / %   << >>
 Keywords == {"fn", "var", "const", "if", "goto", "loop", "else", "cast", "as", "import", "pub", "extern", "struct",
              "word", "return"}
-\* id, builtin!, type keyword, void, naked decimal, bit/suffixed integer, char/bool literal, string
-Others == {"id", "bi", "ty", "void", "dec", "int", "lit", "str"}
+\* id, builtin!, type keyword, void, naked decimal, bit/suffixed integer, char/bool literal, string, string whose bytes
+\* are not UTF-8 (written with \x escapes: a value, but not the path of an import -- tests/samples/invalid/invalid_unicode_in_import.pn)
+Others == {"id", "bi", "ty", "void", "dec", "int", "lit", "str", "strx"}
 Classes == Punct \cup OpClasses \cup Keywords \cup Others \cup {"eof"}
 
 BinOps == {"add", "-", "mul", "&", "|", "^", "sh"}
-ExprStart == {"cast", "-", "!", "|", "|:", "dec", "int", "lit", "str", "id", "return", "bi", "&", "[", "("}
+ExprStart == {"cast", "-", "!", "|", "|:", "dec", "int", "lit", "str", "strx", "id", "return", "bi", "&", "[", "("}
 StmtStart == {"{", "if", "loop", "goto", "var", "id", "return", "bi", "&", ";"}
 DeclStart == {"pub", "extern", "import", "const", "fn", "struct", "word"}
 NameStart == {"id", "return"}
@@ -193,7 +194,7 @@ Rule(nt, m, k) ==
       [] nt = "PrimU" -> IF k \in {"-", "!", "|", "|:"} THEN U(<<"Un">>)
                          ELSE IF k = "cast" THEN U(<<"cast", "Un">>) ELSE R(<<"Prim">>)
       [] nt = "Prim" -> CASE k \in {"dec", "int", "lit"} -> R(<<k>>)
-                          [] k = "str" -> R(<<"str", "StrMore">>)
+                          [] k \in {"str", "strx"} -> R(<<k, "StrMore">>)
                           [] k = "id" -> R(<<"id", "PrimRest">>)
                           [] k = "return" -> U(<<"return", "PrimRest">>)
                           [] k = "bi" -> R(<<"bi">> \o CallT)
@@ -204,7 +205,7 @@ Rule(nt, m, k) ==
       [] nt = "PrimRest" -> CASE k = "(" -> R(CallT)
                               [] k = "{" -> (IF m = "n" THEN R(StructT) ELSE IF m = "p" THEN U(StructT) ELSE R(<<>>))
                               [] OTHER -> R(<<"Steps">>)
-      [] nt = "StrMore" -> IF k = "str" THEN R(<<"str", "StrMore">>) ELSE R(<<>>)
+      [] nt = "StrMore" -> IF k \in {"str", "strx"} THEN R(<<k, "StrMore">>) ELSE R(<<>>)
       [] nt = "AmpsRef" -> IF k = "&" THEN R(<<"&", "Amps", "Name", "Steps">>) ELSE X
       [] nt = "Amps" -> IF k = "&" THEN R(<<"&", "Amps">>) ELSE R(<<>>)
       [] nt = "Adv0" -> IF k = ".." THEN R(<<"..", "E">>) ELSE R(<<>>)
